@@ -244,6 +244,62 @@ theorem public_name_in_message (d : MethodDecl) (ns l : Text) (h1 : d.opName = n
     resolveIn facts11 d = .ok (some ns, l) := by
   simp [resolveIn, h1, h2, h4, splitBrace_qname ns l h3]
 
+/-! ### `@mrpc` member methods, mixed service definitions, documents naming several methods -/
+
+/-- a member method `f` of class `T` answers to 'T.f' — or, with `_in_message_name='n'`, to 'T.n' — and is an
+    ordinary primary descriptor, so every theorem above applies to it -/
+theorem member_name (tns : Text) (c : ClassDecl) (d : MethodDecl) (h1 : d.opName = none)
+    (hd : '.' ∉ c.typeName) (hb : c.typeName.head? ≠ some '{') :
+    (d.inMsg = none → ∃ m, resolveMember facts11 tns c d = .ok m ∧ m.name = c.typeName ++ '.' :: d.func ∧
+        m.member = true ∧ m.aux = false) ∧
+    (∀ n, d.inMsg = some n → n.head? ≠ some '{' → firstSeg n ≠ c.typeName →
+        ∃ m, resolveMember facts11 tns c d = .ok m ∧ m.name = c.typeName ++ '.' :: n ∧ m.msgName = n) := by
+  have hfs : firstSeg (c.typeName ++ '.' :: d.func) = c.typeName := by
+    unfold firstSeg
+    exact (takeWhile_ne_append '.' c.typeName d.func hd).1
+  have hsp : splitBrace (c.typeName ++ '.' :: d.func) = (none, c.typeName ++ '.' :: d.func) :=
+    splitBrace_plain _ (by cases hc : c.typeName with
+      | nil => simp
+      | cons x xs => rw [hc] at hb; simpa using hb)
+  constructor
+  · intro h2
+    simp [resolveMember, h1, h2, hsp, hfs]
+  · intro n h2 hn hf
+    have hf11 : facts11.memberKeyPrefixed = true := by decide
+    simp [resolveMember, h1, h2, splitBrace_plain n hn, hf, hf11]
+
+/-- member methods are routed after the service methods; permuting the service list permutes the descriptors -/
+theorem app_perm (tns : Text) (ss ss' : List ServiceDecl) (cs : List ClassDecl) (hp : ss.Perm ss') (ms : List Method)
+    (h : resolveApp facts11 tns ss cs = .ok ms) : ∃ ms', resolveApp facts11 tns ss' cs = .ok ms' ∧ ms.Perm ms' := by
+  unfold resolveApp at h ⊢
+  cases h1 : resolveAll facts11 ss with
+  | error e => simp [h1] at h
+  | ok a =>
+    cases h2 : resolveClasses facts11 tns cs with
+    | error e => simp [h1, h2] at h
+    | ok mem =>
+      simp [h1, h2] at h
+      obtain ⟨a', ha', hpa⟩ := resolveAll_perm facts11 ss ss' hp a h1
+      exact ⟨a' ++ mem, by simp [ha'], by rw [← h]; exact List.Perm.append_right _ hpa⟩
+
+/-- a service definition that mixes primary and auxiliary methods is refused when the class is created -/
+theorem mixed_aux_rejected (s : ServiceDecl) (ms : List Method) (h : resolveMethodsGo facts11 s s.methods = .ok ms)
+    (a b : Method) (ha : a ∈ ms) (hb : b ∈ ms) (h1 : a.aux = true) (h2 : b.aux = false) :
+    resolveMethods facts11 s s.methods = .error .mixedAux := by
+  have e1 : ms.any (·.aux) = true := List.any_eq_true.mpr ⟨a, ha, h1⟩
+  have e2 : ms.any (fun m => !m.aux) = true := List.any_eq_true.mpr ⟨b, hb, by simp [h2]⟩
+  have hf11 : facts11.mixedAuxRefused = true := by decide
+  simp [resolveMethods, h, e1, e2, hf11]
+
+/-- a dict document that names no method or several runs nothing -/
+theorem doc_needs_one_name (r : Routes) (tns : Text) (keys : List WireName) (h : keys.length ≠ 1) :
+    serveDoc facts11 r tns keys = .clientFault := by
+  have hf11 : facts11.docSingleKey = true := by decide
+  match keys, h with
+  | [], _ => rfl
+  | [_], h => simp at h
+  | _ :: _ :: _, _ => simp [serveDoc, hf11]
+
 /-! ### HTTP: URL paths and HttpPatterns -/
 
 /-- the pattern that wins matches verb and address completely and has the greatest address among
@@ -266,13 +322,13 @@ theorem pattern_or_path (r : Routes) (verb path : Text) :
 /-- a request line answered by an HttpPattern runs the function the pattern was attached to (first),
     then whatever else is registered under that function's public name -/
 theorem pattern_runs (tns : Text) (ms : List Method) (r : Routes) (hb : build facts11 tns ms = .ok r)
-    (hn : ∀ m ∈ ms, m.name.head? ≠ some '{') (verb path : Text) (p : Pat)
+    (hn : ∀ m ∈ ms, m.name.head? ≠ some '{') (hmsg : ∀ m ∈ ms, m.msgName = m.name) (verb path : Text) (p : Pat)
     (hc : choosePattern (httpPatterns r) verb path = some p) :
     httpRequest r verb path = .endpoint p.endpoint ∧
     ∃ hd tl, hd ∈ ms ∧ hd.fid = p.efid ∧ hd.name = p.endpoint ∧
       rget r (qname tns p.endpoint) = hd :: tl ∧
       serve facts11 r tns (httpRequest r verb path) = .ran (p.efid :: tl.map (·.fid)) :=
-  Dispatch.pattern_runs facts11 (by decide) (by decide) (by decide) (by decide) tns ms r hb hn verb path p hc
+  Dispatch.pattern_runs facts11 (by decide) (by decide) (by decide) (by decide) tns ms r hb hn hmsg verb path p hc
 
 /-! ### the transport's decision before dispatch: WSDL request or RPC -/
 
@@ -339,9 +395,10 @@ theorem literal_address_exact (s path : Text) : addrMatches (lits s) path = true
     construction fail with TypeError, the other order is accepted -/
 theorem aux_first_witness (h : facts11.auxFirst = .typeError) (a x : Method)
     (ha : a.aux = false) (hx : x.aux = true) (hn : x.name = a.name) (hk : ifaceKey a ≠ ifaceKey x)
-    (hi : internalKey a ≠ internalKey x) (hc : qname (a.inNs.getD []) a.name ≠ qname (a.outNs.getD []) a.outName) :
+    (ham : a.member = false) (hxm : x.member = false)
+    (hi : internalKey a ≠ internalKey x) (hc : (classKeys [] a).Nodup) :
     build facts11 [] [x, a] = .error .typeError ∧ ∃ r, build facts11 [] [a, x] = .ok r :=
-  aux_first_witness_gen facts11 h a x ha hx hn hk hi hc
+  aux_first_witness_gen facts11 h a x ha hx hn hk ham hxm hi hc
 
 /-- with the silent skip, of two methods with one interface key the first listed wins -/
 theorem iface_skip_witness (h : facts11.ifaceDup = .silentSkip) (a b : Method)
@@ -391,5 +448,15 @@ example : isWsdlRequest facts11 "GET".toList "/svc/refresh_wsdl".toList [] = fal
           isWsdlRequest facts11 "get".toList "/svc.wsdl".toList [] = true ∧
           isWsdlRequest facts11 "GET".toList "/svc/".toList "WSDL=1&x=2".toList = true ∧
           isWsdlRequest facts11 "HEAD".toList "/svc.wsdl".toList "wsdl".toList = false := by decide
+
+/-- member methods: `Doc.rename` by default, `Doc.doit` for `_in_message_name='doit'` (message name `doit`) -/
+example : (match resolveClasses facts11 "tns".toList [docDecl] with
+    | .ok ms => ms.map (fun m => (m.name, m.msgName, ifaceKey m)) | .error _ => []) =
+    [("Doc.rename".toList, "Doc.rename".toList, "tns.Doc.rename".toList),
+     ("Doc.doit".toList, "doit".toList, "tns.Doc.doit".toList)] := by decide
+example : (match resolveClasses facts11 "tns".toList [docDecl] with
+    | .ok mem => (match build facts11 "tns".toList ([mX, mA] ++ mem) with
+        | .ok r => serve facts11 r "tns".toList (.key "Doc.rename".toList) | .error _ => .stuck)
+    | .error _ => .stuck) = .ran [5] := by decide
 
 end SpyneModel.Props.C11
